@@ -106,27 +106,27 @@ type shardArg struct {
 
 // replay/case description, enough to regenerate the single cell
 type caseDesc struct {
-	Family string   `json:"family"`
-	Seed   int64    `json:"seed"`
-	Shape  string   `json:"shape,omitempty"`
-	Site   *site    `json:"site,omitempty"`
-	SiteS  string   `json:"site_s,omitempty"`
-	Recv   string   `json:"recv,omitempty"`
-	Member string   `json:"member,omitempty"`
-	Path   string   `json:"path,omitempty"`
-	Op     string   `json:"op,omitempty"`
-	Exec   string   `json:"exec,omitempty"` // shared-site cells: class executing the trait method
-	Step   int      `json:"step,omitempty"` // ... as the Step-th execution of that source location
-	Bound  string   `json:"boundary,omitempty"`
-	Type   string   `json:"type,omitempty"`
-	Val    string   `json:"value,omitempty"`
-	IKind  string   `json:"inst_kind,omitempty"`
-	IPath  string   `json:"inst_path,omitempty"`
+	Family string    `json:"family"`
+	Seed   int64     `json:"seed"`
+	Shape  string    `json:"shape,omitempty"`
+	Site   *site     `json:"site,omitempty"`
+	SiteS  string    `json:"site_s,omitempty"`
+	Recv   string    `json:"recv,omitempty"`
+	Member string    `json:"member,omitempty"`
+	Path   string    `json:"path,omitempty"`
+	Op     string    `json:"op,omitempty"`
+	Exec   string    `json:"exec,omitempty"` // shared-site cells: class executing the trait method
+	Step   int       `json:"step,omitempty"` // ... as the Step-th execution of that source location
+	Bound  string    `json:"boundary,omitempty"`
+	Type   string    `json:"type,omitempty"`
+	Val    string    `json:"value,omitempty"`
+	IKind  string    `json:"inst_kind,omitempty"`
+	IPath  string    `json:"inst_path,omitempty"`
 	Chain  *chainCfg `json:"chain,omitempty"`
 	Oblig  *obCfg    `json:"oblig,omitempty"`
-	Cls    string   `json:"cls,omitempty"`
-	Script string   `json:"script,omitempty"`
-	Expect string   `json:"expect,omitempty"`
+	Cls    string    `json:"cls,omitempty"`
+	Script string    `json:"script,omitempty"`
+	Expect string    `json:"expect,omitempty"`
 }
 
 // site needs exported fields for JSON
@@ -252,7 +252,9 @@ func visWorker(w *pool.W, arg json.RawMessage) {
 	}
 	// public controls: (recv,path,op,category) -> conforming
 	control := map[string]bool{}
-	ck := func(c *cell) string { return fmt.Sprint(c.M.tag(), "|", c.Recv, "|", c.Path, "|", c.Op, "|", c.Exec, "|", c.Step) }
+	ck := func(c *cell) string {
+		return fmt.Sprint(c.M.tag(), "|", c.Recv, "|", c.Path, "|", c.Op, "|", c.Exec, "|", c.Step)
+	}
 	// earlier executions of the same shared site
 	preOf := func(c *cell) []cell {
 		if s.kind != "trait" {
